@@ -127,6 +127,14 @@ pub fn case(ch: &mut Chooser, kind: &'static str, context: &'static str, derived
     rep.label(if derived { "with-derived-forms" } else { "excluded_by_construction:derived-forms-and-library-context" });
     let fe = &laid.forms[fault_index];
     rep.nontrivial = fe.start[0] > 1 && fe.end[0] > fe.start[0];
+    // the forms before the injected fault must succeed (the first error of the text is then the injected one)
+    {
+        let mut m = crate::refeval::Machine::new(crate::refeval::ORDERS[0]);
+        if forms[..fault_index].iter().any(|f| m.eval_form(f).is_err()) {
+            rep.skipped = Some("a-form-before-the-fault-fails-in-the-reference-evaluator".into());
+            return rep;
+        }
+    }
     let o = eval_whole(&laid.text);
     rep.note = format!("{} ; failing form extent {:?}-{:?}, offending token {:?}", o.show(), fe.start, fe.end, laid.marked.as_ref().map(|m| (m.start, m.end)));
     let uses_macro = form_uses(&forms[fault_index], MACROS);
@@ -272,7 +280,7 @@ pub fn run(ctx: &Ctx) {
          error points at or before the offending token. Half of the cases avoid derived forms and library contexts by \
          construction. Non-trivial = the failing form is not on line 1 and spans >= 2 lines.",
     );
-    let per = ctx.tier.pick(24, 300);
+    let per = ctx.tier.pick(40, 300);
     for kind in KINDS.iter() {
         for context in CONTEXTS.iter() {
             for derived in [false, true] {
